@@ -2,4 +2,134 @@
 One entry per property; edited as monitors land."""
 
 META = {
+    "C42": {
+        "ready": True,
+        "technique": "runtime monitoring: value oracle over (a) real-thread stress of the public SeqLock API and (b) Miri many-seeds as a seed-controlled pre-emptive scheduler over the real seqlock.rs",
+        "text": "Every value returned by SeqLockReader::read in the produced executions was a completely written value (all 8 words equal), not older than the last write completed before the read began, monotone per reader, and reads return promptly once the writer is quiescent (also after a panicking closure). Held on ~10^8 real-thread reads (x86-64, 1-15 readers) and 256 (quick) / 4096 (thorough) Miri schedules with distinct seeds and preemption rates; nothing is claimed about schedules not produced or about weaker memory models than x86-64/Miri's.",
+        "note": "Trusted: the harness oracle (completed-counter published with SeqCst after each write returns), Miri's scheduler, this machine's x86-64 memory model. Miri's data-race detector and Stacked Borrows are disabled because a seqlock's plain accesses are flagged by construction; that language-level finding is recorded in DESIGN.md section 7 and is outside C42 (which is about returned values).",
+        "design": "DESIGN.md section 5, C42 and section 4",
+    },
+
+    "C10": {
+        "ready": True,
+        "technique": "runtime monitoring: seeded op-sequence exploration of the real nested StorageTransaction vs a stack-of-maps reference model",
+        "text": "On ~1.9M (quick) / 40M (thorough) generated operations over nested storage transactions (depth <=4, raw and typed ops, read offsets around the value length, sibling merges), every return value, every post-commit/drop/merge read sweep, the pending change set and the base content equalled an independent layered-map model; Fail-policy merges were rejected exactly when key sets overlapped. Held on the executions produced only.",
+        "note": "Trusted: the map model (mon-kv/src/c10.rs), InMemoryStorage test helper as base; read_* boundary semantics taken from kv_store.rs docs; state after a legitimately rejected merge not judged.",
+    },
+    "C13": {
+        "ready": True,
+        "technique": "runtime monitoring: seeded op sequences on the real merklized FuelBlocks table vs an own RFC-6962 accumulator model",
+        "text": "After every generated insert/replace/remove/take/batch op on FuelBlocks (in-memory transaction and GenesisDatabase; direct / child / grand-child transactions) all stored blocks, per-height roots and Primary/Latest metadata were re-read and compared with an independent RFC-6962 root over block ids in insertion order; ops on existing heights must fail and leave everything unchanged.",
+        "note": "Trusted: mon-kv/src/rfc6962.rs (cross-checked against fuel-merkle every run), block id hashing of fuel-core-types; failed batches may apply a fresh prefix (counted).",
+    },
+    "C14": {
+        "ready": True,
+        "technique": "runtime monitoring: seeded op sequences on the real sparse-merklized compression tables vs a from-scratch sparse root oracle",
+        "text": "After every generated single/batched op on the 8 merkleized compression tables (direct, in transactions, nested; committed and dropped) each table's recorded root equalled fuel-merkle's root_from_set over the table's current raw entries read back by iteration (+pending overlays), contents equalled a map model, and no op changed another table's root.",
+        "note": "Trusted: fuel-merkle in-memory sparse tree, the Changes overlay for uncommitted views; one tree per table (primary key = column id).",
+    },
+    "C32": {
+        "ready": True,
+        "technique": "runtime monitoring: seeded request/growth histories against the real CachedView + real on-chain DB with a differential oracle; generated codec round-trips at the size boundary; two real p2p services over loopback for the range limit",
+        "text": "For every generated history of header/transaction range requests (cache capacity 1-8, ranges within, across, beyond the tip, empty, reversed, huge, overlapping earlier requests, chain growing in between, also 4 threads on one cache) the CachedView answered exactly what the database answered at that moment and what was written. Every request/response variant (Ok and all error codes, V1/V2) decoded to the original when the limit >= encoded size and was rejected when the limit was smaller. A real peer refused ranges longer than max_headers_per_request and served ranges <= the limit identical to its database.",
+        "note": "Trusted: harness chain writer/record, structural equality of messages, in-memory DB backend, libp2p loopback; chain growth only (no reorg); PoolTransaction form not generated.",
+    },
+    "C37": {
+        "ready": True,
+        "technique": "runtime monitoring: generated coin sets in a real in-memory on-chain/off-chain DB, 4 entry points, brute-force soundness/admissibility oracle",
+        "text": "Over ~1.4M (quick) / 17M (thorough) answers for dust clusters, equal amounts, whales, u64::MAX coins, 250-300-coin sets, targets at S-1/S/S+1 and top(max)+-1, max 0/1/2/255/n+-1, exclusions of the largest or boundary coin, and allow_partial, every Ok answer contained only unspent resources of the owner and asset, nothing excluded, no duplicate, <= max, and total >= target unless partial; every InsufficientCoins/MaxCoinsReached error occurred only when the max largest non-excluded resources could not reach the target. Known finding: the indexed path returns Ok([]) for max=0, target>0.",
+        "note": "Trusted: harness model of inserted resources, a consistent index (C36's job); error kind not distinguished; the ReadView::coins_to_spend leg checks amounts only.",
+    },
+    "C38": {
+        "ready": True,
+        "technique": "runtime monitoring with exhaustive enumeration of the bounded input space through hook H4, an independent page model, plus GraphQL end-to-end walks",
+        "text": "For every collection size 0..=8, page size 0..=10 and i32::MAX, both directions and every cursor position (each entry, each gap, none), from a generated source and from the real owned-coins iterator with UtxoId cursors, the real query_pagination returned exactly the model page; every page <= requested size; has_next_page direction-relative ('more entries remain'); has_previous_page true exactly when a cursor that is an entry was given; cursor-following walks enumerated the collection exactly once; unsupported argument combinations rejected; same walks through GraphQL for coins, messages and blocks. exhaustive: true for the stated region.",
+        "note": "Trusted: ~40-line page model; flags are direction-relative as pinned by tests/tests/tx.rs::get_transactions; has_previous_page not judged for cursors that are not entries; storage errors inside the stream are out of scope (noted: they are swallowed).",
+    },
+
+    "C22": {
+        "ready": True,
+        "technique": "runtime monitoring: seeded hostile publication/subscription histories against the real tx-status-manager service (public API, paused tokio clock), subscriber-end recording, offline per-subscriber oracle",
+        "text": "Across ~73k (quick) subscriber streams over all three write routes, batches, lagging/draining/dropped subscribers, limits 1-8 and TTL expiry, every stream was in publication order, duplicate-free, silent after the first final status and after its end; every draining subscriber received exactly the owed statuses up to the first final one and its stream ended.",
+        "note": "Trusted: harness final-status list, publication log/serial stamping, barrier assumption (biased select: writes before reads), exclusion rules for completeness; subscription-limit behaviour not judged.",
+    },
+    "C23": {
+        "ready": True,
+        "technique": "runtime monitoring: seeded publication/advance/query histories on the real service with a paused tokio clock stepping around the TTL boundary; per-query oracle from a last-publication model",
+        "text": "In ~857k (quick) judged queries, get_status always returned the latest publication while it was Submitted or younger than the TTL (including ttl-1ms, republished-after-expired-predecessor and mixed Submitted/non-Submitted sequences), never an older one, and never a status for an unpublished tx; forgetting was only observed at age >= TTL.",
+        "note": "Trusted: the model (last publication + virtual time), the check that the cache reads tokio Instant; retention beyond the TTL is accepted by the property (a mutant that only delays pruning is invisible by design).",
+    },
+    "C44": {
+        "ready": True,
+        "technique": "runtime monitoring through the P2P and protocol-key ports: seeded delegation/preconfirmation gossip with by-construction validity, key rotation, tampering, replays, and real waiting across expirations under the wall-clock discipline of DESIGN 3.7",
+        "text": "In ~67k (quick) gossip messages, batches changed statuses (broadcast, preconfirmation listener, cache) only when signed by the delegate key registered for their expiration by a delegation signed by the then-current protocol key and clearly unexpired; all other judged batches and delegations got exactly one Reject report and had no effect; batches valid before an expiration were rejected after it, also after the expired delegation was re-gossiped.",
+        "note": "Trusted: construction-time knowledge of signer and tamper, the model delegation table, the TAI wall stamps with a 1 s/2 s margin (ambiguous cases counted, not judged); expired-but-validly-signed delegations, rotated-since-registration and overwritten-key batches judged for consistency only.",
+    },
+    "C15": {
+        "ready": True,
+        "technique": "runtime monitoring: mutation workload over real sealed chains judged per gate (verify_block_fields via production VerifierAdapter on a real on-chain DB, verify_consensus, Block::try_from_executed) against an independent chain/key-schedule model",
+        "text": "For every generated valid PoA / PoAV2 block (incl. blocks at key-change heights and with da/time equal to the parent) all three gates accepted; for every one of ~2x10^5 (quick) single-field mutations (each header field in stale/rehash/resign form, height 0, wrong prev_root, da/time below parent, stale application hash, tx root/count, tx insert/remove/swap/byte flip/witness-only, seal bit flips, foreign keys, shifted schedules) the gate responsible for the violated rule rejected, un-violated re-sealed variants were accepted, and no accepted content change kept the block id. Nothing is claimed about mutations not generated or V2 headers.",
+        "note": "Trusted: harness model (RFC-6962 root over block ids / tx bytes, parent da/time, own key-schedule lookup), fuel-crypto secp256k1, sha2, postcard. Debug-assert build: stale-app-hash cases are judged only at verify_block_fields.",
+    },
+    "C33": {
+        "ready": True,
+        "technique": "runtime monitoring: end-to-end round trip of block sequences through the real compression-service storage (separate compressor and decompressor Database<CompressionDatabase>, real on-chain DB for history lookups) with an equality oracle",
+        "text": "In every produced session (30-60 blocks, small value alphabets, retention 2-600 s with time steps 0,1,R-1,R,R+1,2R+1, evictor placed below the 24-bit wrap and repeatedly below live keys: ~10^4 overwrites of live keys, ~10^3 wraps, ~4x10^4 reuse hits per quick run) each compressed block deserialised and decompressed, in order, to the original header and to the original transactions with exactly the format's non-transported (execution-filled) fields reset; tx ids equal. Not claimed: histories not generated, V1/fault-proving payloads, RocksDB backend.",
+        "note": "Trusted: structural block generator + ledger (coins/messages/FuelBlocks written by the harness), the normalisation list of skipped fields, moving the evictor pointer as a model of a full key cycle, postcard.",
+    },
+    "C43": {
+        "ready": True,
+        "technique": "runtime monitoring: generated-input round trip (message structs and prost wire) with field-level diff oracle; store-sequence histories against a contiguity model on StorageDB over a plain KV store and the production database",
+        "text": "Every generated block (all tx kinds, both upgrade purposes, all input/output/receipt variants, all 64 policy masks, all 256 panic-reason bytes, None/empty/some optional data; header generated fields derived from txs+receipts) converted to protobuf and back equal to the original; store_block accepted exactly the first and current+1 heights and left state untouched on rejection in ~1.3x10^5 ops (two defects found by this monitor were repaired by fix: commits).",
+        "note": "Trusted: prost, fuel-tx constructors, the harness KV store, the 10-line contiguity model; blocks whose header is inconsistent with their receipts are outside the conversion's domain and not generated.",
+    },
+    "C39": {
+        "ready": True,
+        "technique": "runtime monitoring: seeded export/regenesis round trips through the real Exporter and genesis importer with a table-by-table byte oracle",
+        "text": "For several hundred seeded chain states per run, written directly into the tables (contracts with 0, 1 and many storage slots spanning 3 or more groups), every combination of json/parquet, group size 1/2/3/7/default and memory/rocksdb backends is exported with Exporter::write_full_snapshot and imported through execute_and_commit_genesis_block. The regenesis database must hold byte-identical coins, messages, contract code, balances, state, latest utxo and blobs; for parquet also identical processed tx ids and block Merkle data/metadata; height = source height + 1 with prev_root = source blocks root; the Merkle root after the regenesis block equals an independent fuel_merkle root over all block ids.",
+        "note": "Trusted: the storage codecs (shared by both sides), fuel_merkle's in-memory tree, direct table population as the source of generated states. JSON snapshots do not carry processed tx ids and block Merkle data by design (state.rs: 'Do not include these for now'): excluded for JSON and counted under excluded.json.*. Off-chain history tables are observed only.",
+    },
+    "C40": {
+        "ready": True,
+        "level": "fault_enumeration",
+        "technique": "runtime monitoring with exhaustive fault enumeration at the storage/cancellation boundary of the real genesis importer",
+        "text": "For every generated multi-table snapshot (16 per quick run; parquet or json; inline and racing table workers) the import is interrupted at every one of the G group commits: cancellation right after commit k for k=0..G, failure of commit k for k=1..G, and failure of every data-column read; then restarted as a new process until it completes. Each (migration, group) must be committed exactly once across attempts, the committed change sets must equal the uninterrupted import's, and every on-chain and off-chain column must end byte-identical to it.",
+        "note": "Trusted: the FaultStore wrapper sees all writes (cross-checked by replaying its log against the store); a restart is modelled by a new runtime + watcher after all old workers ended. Not injected: failures of the snapshot reader, of progress-table reads, and anything after the last group commit (not-judged probes show balances double-count there; see DESIGN.md section 7).",
+    },
+    "C27": {
+        "ready": True,
+        "technique": "runtime monitoring with exhaustive input enumeration through hook H2 and a partition oracle",
+        "text": "Every cache content/range/batch size over 8 (quick) / 10 (thorough) heights plus a universe next to u32::MAX, and 128k random cases over 24 heights, is chunked by the real Cache::get_chunks and each result is checked to be an exact ordered partition (consecutive, non-overlapping, non-empty, each <= batch size) with cached batches carrying exactly the cached items of their heights.",
+        "note": "Trusted: hook H2 forwarding (builds a real Cache by single-item inserts) and the 40-line judge. Ranges ending at u32::MAX cannot be expressed.",
+    },
+    "C28": {
+        "ready": True,
+        "technique": "runtime monitoring: reachable-state closure + exhaustive short sequences + random long ones vs a two-number reference model",
+        "text": "Every operation from every reachable (State, model) pair over three height universes, all explicit sequences to length 4-7 and random sequences of length <= 40 agree with the (C,B) reference model of DESIGN.md; the committed height never decreases.",
+        "note": "Trusted: Debug rendering of State (status() is cfg(test)), cross-checked with process_range, and the C/B model.",
+    },
+    "C30": {
+        "ready": True,
+        "technique": "runtime monitoring of the real Producer with scripted ports and a u128 prefix oracle",
+        "text": "About 1.1M productions by the real Producer over generated relayer cost/tx-count profiles (exact-limit, limit+1, u64 near-overflow, unlisted heights, finalized behind/equal/ahead, injected relayer errors) yield exactly the largest fitting DA prefix, or fail when required; the DA height never decreases nor passes the finalized height.",
+        "note": "Trusted: harness ports, u128 oracle, tx budget u16::MAX-1. Cases with gas limit == u64::MAX whose exact sum exceeds u64::MAX are not judged (counted).",
+    },
+    "C31": {
+        "ready": True,
+        "technique": "runtime monitoring: exhaustive short connect/disconnect histories + random mixed histories against a set model, observing the handshake flag through the real ConnectionState reader",
+        "text": "All connect/disconnect histories of length 6-7 over 1 reserved + 3 non-reserved peers for limits 1..=3 and 80k mixed histories (identify, heartbeat, app-score, gossip-score, decay) keep the non-reserved count <= limit, admission and the handshake flag equal to 'slot free' after every operation, reserved peers never refused or banned, scores <= MAX_APP_SCORE.",
+        "note": "Trusted: the set model; flag read via the SeqLock reader that ConnectionTracker consults; limit 0 not judged (a fresh ConnectionState says 'available'; counted).",
+    },
+    "C34": {
+        "ready": True,
+        "technique": "runtime monitoring: long random update histories on the real AlgorithmUpdaterV1 with bound/rate oracles",
+        "text": "22M updater calls over 16k configurations keep exec price >= min, DA price within [min,max], per-call moves within the configured percentages (1-unit rounding allowance, clamps exempt), and wrong heights are rejected without any state change.",
+        "note": "Trusted: the arithmetic oracle; config domain min <= max and min*factor fits u64; panics map to inconclusive.",
+    },
+    "C35": {
+        "ready": True,
+        "technique": "runtime monitoring: exhaustive grid over the precomputed-table region and its boundary + random families, through 4 public entry points, each call under catch_unwind",
+        "text": "Every horizon/percentage 0..=64 for 26 prices (incl. 2^53+-1, the compensation cutoff, u64::MAX) through cumulative_percentage_change, AlgorithmV1::worst_case (exec and DA) and UniversalGasPriceProvider::worst_case_gas_price is total, monotone in the horizon and >= exact saturating integer compounding, except the documented f64-precision class (<= 2^-40 relative above 2^46; open known finding).",
+        "note": "Trusted: oracle = saturating c + floor(c*q/100) per block. The table-edge panic found by this monitor was repaired by a fix: commit.",
+    },
 }
